@@ -5,11 +5,11 @@
 
   CASE args: sequences separated by `|`; commands
     M x y | m dx dy | Z | L x y | l dx dy | H x | h dx | V y | v dy | Q cx cy x y | q … | T x y |
-    t dx dy | C c1 c2 to | c … | S c2 to | s … | A x y <sgeo> | a dx dy <sgeo> | R <ageo>
-    sgeo = st | ar <ageo>        (is_straight_line / centre-form arc)
-    ageo = sk | cv sx sy near n (cx cy tx ty)×n
-  The arc geometry is what lyon_geom computes for that arc at the adapter's current position
-  (the `Geo` parameter of the model, instantiated by "read it from the command").
+    t dx dy | C c1 c2 to | c … | S c2 to | s … | A x y <ops> | a dx dy <ops> | R <ops>
+    ops = rx ry cx cy sx sy n (cx cy tx ty)×n
+  `ops` are the radii operand and what lyon_geom computes for that arc at the adapter's current
+  position (centre, start point, pieces).  Which branch `arc`/`arc_to` takes is decided by the
+  model (`numGeo`: `isStraightLine`, `approxEqPt`, `nearStart` at Float32).
 -/
 import LyonVerif.Drive.Common
 import LyonVerif.Model.Path.Svg
@@ -18,17 +18,13 @@ namespace Lyon.Drive.C15
 open Lyon Lyon.Drive Lyon.Path Lyon.Svg
 
 abbrev F := Float32
-abbrev G := SvgArcOut F
+abbrev G := ArcOps F
 
 def h (s : String) : F := Wire.ofHex s
 def pt (x y : String) : Pt F := ⟨h x, h y⟩
 
-/-- the geometry travels with the command -/
-def geo : Geo F G where
-  center r _ := match r with
-    | .arc o => o
-    | .straight => .skip
-  endpoint r _ _ := r
+/-- the branches of `arc` / `arc_to` are decided by the model at `Float32` -/
+def geo : Geo F G := numGeo
 
 partial def parseQuads : Nat → List String → List (Pt F × Pt F) × List String
   | 0, r => ([], r)
@@ -37,17 +33,12 @@ partial def parseQuads : Nat → List String → List (Pt F × Pt F) × List Str
     ((pt cx cy, pt tx ty) :: qs, r')
   | _, _ => ([], [])
 
-def parseArc : List String → ArcOut F × List String
-  | "sk" :: r => (.skip, r)
-  | "cv" :: sx :: sy :: near :: n :: r =>
+/-- `rx ry cx cy sx sy n (cx cy tx ty)×n` -/
+def parseOps : List String → G × List String
+  | rx :: ry :: cx :: cy :: sx :: sy :: n :: r =>
     let (qs, r') := parseQuads n.toNat! r
-    (.curve (pt sx sy) (near == "1") qs, r')
-  | r => (.skip, r)
-
-def parseSvgArc : List String → G × List String
-  | "st" :: r => (.straight, r)
-  | "ar" :: r => let (o, r') := parseArc r; (.arc o, r')
-  | r => (.straight, r)
+    (⟨pt rx ry, pt cx cy, pt sx sy, qs⟩, r')
+  | r => (⟨pt "0" "0", pt "0" "0", pt "0" "0", []⟩, r)
 
 partial def parse : List String → List (Cmd F G)
   | [] => []
@@ -68,9 +59,9 @@ partial def parse : List String → List (Cmd F G)
   | "c" :: a :: b :: c :: d :: x :: y :: r => .relCubicTo (pt a b) (pt c d) (pt x y) :: parse r
   | "S" :: c :: d :: x :: y :: r => .smoothCubicTo (pt c d) (pt x y) :: parse r
   | "s" :: c :: d :: x :: y :: r => .smoothRelCubicTo (pt c d) (pt x y) :: parse r
-  | "A" :: x :: y :: r => let (g, r') := parseSvgArc r; .arcTo g (pt x y) :: parse r'
-  | "a" :: x :: y :: r => let (g, r') := parseSvgArc r; .relArcTo g (pt x y) :: parse r'
-  | "R" :: r => let (o, r') := parseArc r; .arc (.arc o) :: parse r'
+  | "A" :: x :: y :: r => let (g, r') := parseOps r; .arcTo g (pt x y) :: parse r'
+  | "a" :: x :: y :: r => let (g, r') := parseOps r; .relArcTo g (pt x y) :: parse r'
+  | "R" :: r => let (g, r') := parseOps r; .arc g :: parse r'
   | _ :: _ => []
 
 def fpt (p : Pt F) : String := fx p.x ++ " " ++ fx p.y
@@ -103,6 +94,7 @@ def seqs (v : Array String) : String :=
   " | ".intercalate ((splitBar v.toList).map runSeq)
 
 def families : List Family := [
+  Family.plain "wit" seqs,
   Family.plain "exh" seqs,
   Family.plain "exhm" seqs,
   Family.plain "blk" seqs,
